@@ -410,3 +410,39 @@ package bgv
 //@   ensures implies(isnil(err), len(opOut.Value) == 2)
 //@   ensures implies(isnil(err), val(opOut.Value[0]) == T * old(val(op0.Value[0])) * old(val(op1.Value[0])) + uf_gp0(c2, g))
 //@   ensures implies(isnil(err), val(opOut.Value[1]) == T * old(val(op0.Value[0])) * old(val(op1.Value[1])) + T * old(val(op0.Value[1])) * old(val(op1.Value[0])) + uf_gp1(c2, g))
+
+// ---- ciphertext (+, -, *) PLAINTEXT at equal scales: the plaintext takes part in the first component only
+// ---- (sum / difference), respectively multiplies every component (times T); the other components are copied
+//@ afunc Evaluator.Add#pt
+//@   property C05
+//@   dyn op1 *rlwe.Plaintext
+//@   case len(op0.Value) == 2 && len(op1.Element.Value) == 1 && len(opOut.Value) == 2
+//@   case len(op0.Value) == 3 && len(op1.Element.Value) == 1 && len(opOut.Value) == 2
+//@   case len(op0.Value) == 2 && len(op1.Element.Value) == 1 ; alias opOut = op0
+//@   requires old(cmpval(op0.MetaData.PlaintextMetaData.Scale, op1.Element.MetaData.PlaintextMetaData.Scale)) == 0
+//@   requires isntt(op0.Value[0]) && isntt(op0.Value[1]) && isntt(op1.Element.Value[0]) && mexp(op0.Value[0]) == 0 && mexp(op0.Value[1]) == 0 && mexp(op1.Element.Value[0]) == 0
+//@   ensures implies(isnil(err), val(opOut.Value[0]) == old(val(op0.Value[0])) + old(val(op1.Element.Value[0])) && val(opOut.Value[1]) == old(val(op0.Value[1])))
+//@   ensures implies(isnil(err), len(opOut.Value) == old(len(op0.Value)))
+
+//@ afunc Evaluator.Sub#pt
+//@   property C05
+//@   dyn op1 *rlwe.Plaintext
+//@   case len(op0.Value) == 2 && len(op1.Element.Value) == 1 && len(opOut.Value) == 2
+//@   case len(op0.Value) == 3 && len(op1.Element.Value) == 1 && len(opOut.Value) == 2
+//@   case len(op0.Value) == 2 && len(op1.Element.Value) == 1 ; alias opOut = op0
+//@   requires old(cmpval(op0.MetaData.PlaintextMetaData.Scale, op1.Element.MetaData.PlaintextMetaData.Scale)) == 0
+//@   requires isntt(op0.Value[0]) && isntt(op0.Value[1]) && isntt(op1.Element.Value[0]) && mexp(op0.Value[0]) == 0 && mexp(op0.Value[1]) == 0 && mexp(op1.Element.Value[0]) == 0
+//@   ensures implies(isnil(err), val(opOut.Value[0]) == old(val(op0.Value[0])) - old(val(op1.Element.Value[0])) && val(opOut.Value[1]) == old(val(op0.Value[1])))
+//@   ensures implies(isnil(err), len(opOut.Value) == old(len(op0.Value)))
+
+//@ afunc Evaluator.Mul#pt
+//@   property C05
+//@   dyn op1 *rlwe.Plaintext
+//@   case len(op0.Value) == 2 && len(op1.Element.Value) == 1 && len(opOut.Value) == 2 && !eval.ScaleInvariant
+//@   case len(op0.Value) == 2 && len(op1.Element.Value) == 1 && len(opOut.Value) == 3 && !eval.ScaleInvariant
+//@   case len(op0.Value) == 2 && len(op1.Element.Value) == 1 && !eval.ScaleInvariant ; alias opOut = op0
+//@   let T = uf_rnsval(contentid(eval.tMontgomery))
+//@   requires uf_rnsmexp(contentid(eval.tMontgomery)) == 2
+//@   requires isntt(op0.Value[0]) && isntt(op0.Value[1]) && isntt(op1.Element.Value[0]) && mexp(op0.Value[0]) == 0 && mexp(op0.Value[1]) == 0 && mexp(op1.Element.Value[0]) == 0
+//@   ensures implies(isnil(err), len(opOut.Value) == 2)
+//@   ensures implies(isnil(err), val(opOut.Value[0]) == T * old(val(op0.Value[0])) * old(val(op1.Element.Value[0])) && val(opOut.Value[1]) == T * old(val(op0.Value[1])) * old(val(op1.Element.Value[0])))
